@@ -672,6 +672,7 @@ def r89(ctx):
 def run(ctx):
     ctx.rule("R-8.7", "one ensemble-index unit per store: self.locked entries offset-removed, restart.toml's locked and lock()/swap() indices in state-matrix rows", floor=4)
     ctx.rule("R-8.8", "the commit is final: nothing restart.toml serialises is modified after write_toml within the step", floor=1)
+    ctx.rule("R-8.10", "every [current] key that write_toml maintains is stored on every path to the dump", floor=3)
     ctx.rule("R-8.9", "file writes of the per-step path reach the disk before the commit (handle bound by `with open`, or flushed/closed on every path)", floor=3)
     ctx.rule("R-8.1", "store before commit: numbered path reaches write_toml only through pstore.output; output() performs mkdir, txt files and moves on every path", floor=4)
     ctx.rule("R-8.2", "atomic commit: dump to a temporary name, os.replace over the file setup_config reads", floor=1)
@@ -687,11 +688,14 @@ def run(ctx):
     ctx.attempt(r86, ctx)
     ctx.attempt(r87, ctx)
     ctx.attempt(r89, ctx)
+    from .shared import commit_refreshes_state
+    ctx.attempt(commit_refreshes_state, ctx, "R-8.10", " - the file on disk then describes a mixture of two steps")
     from .shared import commit_is_final
     ctx.attempt(commit_is_final, ctx, "R-8.8")
 
 
 VARIANTS = [
+    B("c08-active-stored-conditionally", REPEX, '        self.config["current"]["active"] = self.live_paths()\n        locked_ep = []', '        if self.locked:\n            self.config["current"]["active"] = self.live_paths()\n        locked_ep = []', "R-8.10", control=True),
     B("c08-data-rows-buffered-handle", REPEX, '    with open(state.data_file, "a") as fp:\n        for pn in pn_archive:', '    fp = state.__dict__.setdefault("_data_fp", open(state.data_file, "a"))\n    if True:\n        for pn in pn_archive:', "R-8.9", control=True, why="seeded C08_d (handle kept open between steps)"),
     K("c08-keep-data-rows-explicit-close", REPEX, '    with open(state.data_file, "a") as fp:\n        for pn in pn_archive:', '    fp = open(state.data_file, "a")\n    try:\n        for pn in pn_archive:', also=[(REPEX, '            traj_data.pop(pn)\n', '            traj_data.pop(pn)\n    finally:\n        fp.close()\n')]),
     B("c08-commit-before-store", REPEX, '        pn_news = []\n        md_items["md_end"] = time.time()\n        picked = md_items["picked"]\n        traj_num = self.config["current"]["traj_num"]\n',
